@@ -29,6 +29,9 @@ ev = open(os.path.join(P, "Properties_C17eval.v")).read()
 out = "(* C17 - assembled by tools/assemble_props.py from Properties_C17eval.v (manifest evaluation) and the c17_* theorems of\n   Properties_c17lex.v (keywords, bytes 0x80-0xFF, shell quoting).  Statements only. *)\n"
 out += ev + "\n(* ---------------------------------------------------------------- lexer and shell-quoting part *)\n"
 out += module_wrap("Lex", lex_h, lex_b, lambda n: n.startswith("c17_"))
+par_h, par_b, _ = split(os.path.join(P, "Properties_ninjaparse.v"))
+out += "\n(* ---------------------------------------------------------------- parser part (bytes -> declarations; composition with the loader) *)\n"
+out += module_wrap("Parse", par_h, par_b, lambda n: True)
 open(os.path.join(P, "Properties_C17.v"), "w").write(out)
 print("C17:", len(re.findall(r"^\s*Theorem ", out, re.M)), "theorems")
 
@@ -36,5 +39,7 @@ bf = open(os.path.join(P, "Properties_C19bfile.v")).read()
 out = "(* C19 - assembled by tools/assemble_props.py from Properties_C19bfile.v (build-description loader, dependency-file parsers) and the\n   c19_* theorems of Properties_c17lex.v (Ninja lexer: termination, bounds, tiling, EndOfFile).  Statements only. *)\n"
 out += bf + "\n(* ---------------------------------------------------------------- Ninja lexer part *)\n"
 out += module_wrap("Lex", lex_h, lex_b, lambda n: n.startswith("c19_"))
+out += "\n(* ---------------------------------------------------------------- Ninja parser part: termination, bounds, no silent drop, whole-manifest loading *)\n"
+out += module_wrap("Parse", par_h, par_b, lambda n: True)
 open(os.path.join(P, "Properties_C19.v"), "w").write(out)
 print("C19:", len(re.findall(r"^\s*Theorem ", out, re.M)), "theorems")
